@@ -320,7 +320,86 @@ def facts_control():
     return out
 
 
-SECTIONS = [("stream", facts_stream), ("control", facts_control)]
+
+# ----------------------------------------------------------------------------- packets.py / prepared.py / types.py
+# The function bodies the Coq model was transcribed from (normalised text: docstrings, comments and logging
+# dropped) live in harness/expected_bodies.json; `translate.py --snapshot <key>...` rewrites entries from the
+# current tree (done by hand, after reading the code, when the model is re-transcribed).
+import json as _json
+
+_EXPECTED_PATH = os.path.join(os.path.dirname(os.path.abspath(__file__)), "expected_bodies.json")
+
+
+def expected_bodies():
+    with open(_EXPECTED_PATH) as f:
+        return _json.load(f)
+
+
+def current_body(key):
+    fname, cls, fn = key.split(":")
+    tree = parse(fname)
+    node = find_class(tree, cls) if cls else tree
+    return body_text(find_func(node, fn))
+
+
+def body_fact(key, out):
+    """Emit `<file>_<fn>_ok : bool` comparing the current body with the transcribed one."""
+    fname, cls, fn = key.split(":")
+    try:
+        got = current_body(key)
+    except Shape:
+        got = None
+    ok = got is not None and got in expected_bodies().get(key, [])
+    name = fname.split(".")[0] + "_" + (cls.lower() + "_" if cls else "") + fn.lstrip("_") + "_ok"
+    if not ok:
+        shown = (got or "<missing>").replace("*)", "* )").replace('"', "''")
+        out.append(f"(* {key} differs from the transcribed shape:\n{shown}\n*)")
+    out.append(f"Definition {name} : bool := {'true' if ok else 'false'}.")
+    return ok
+
+
+PACKET_BODIES = [
+    "types.py::read_str_null", "types.py::read_uint_len", "types.py::read_str_len", "types.py::uint_len",
+    "prepared.py::find_params", "packets.py::_encode_param_as_sql", "packets.py::_read_connect_attrs",
+]
+
+
+def facts_packets():
+    out = []
+    trees = {"packets.py": parse("packets.py"), "types.py": parse("types.py")}
+    for key in PACKET_BODIES:
+        body_fact(key, out)
+    # the interpolation loop must splice by position (no regex substitution of the values)
+    pk = trees["packets.py"]
+    ip = find_func(pk, "_interpolate_params")
+    txt = body_text(ip)
+    uses_sub = "REGEX_PARAM.sub" in txt or ".sub(" in txt
+    uses_find = "find_params(sql)" in txt
+    out.append(f"Definition packets_interpolate_by_position : bool := {'true' if (uses_find and not uses_sub) else 'false'}.")
+    cn = parse("connection.py")
+    hp = body_text(find_func(find_class(cn, "Connection"), "handle_stmt_prepare"))
+    out.append(f"Definition connection_prepare_counts_with_find_params : bool := {'true' if 'num_params = len(find_params(sql))' in hp else 'false'}.")
+    # enum tables
+    ty = trees["types.py"]
+    ct = class_consts(find_class(ty, "ColumnType"))
+    out.append("Definition types_column_type_codes : list N := " + nlist(sorted(ct.values())) + ".")
+    rv = find_func(pk, "_read_param_value")
+    sets = [n for n in ast.walk(rv) if isinstance(n, ast.Set)]
+    if not sets:
+        raise Shape("_read_param_value: no set literals")
+    def codes(setnode):
+        r = []
+        for e in setnode.elts:
+            nm = ast.unparse(e)
+            if not nm.startswith("ColumnType."):
+                raise Shape("unexpected set element " + nm)
+            r.append(ct[nm.split(".", 1)[1]])
+        return sorted(r)
+    out.append("Definition packets_string_param_types : list N := " + nlist(codes(sets[0])) + ".")
+    return out
+
+
+SECTIONS = [("stream", facts_stream), ("control", facts_control), ("packets", facts_packets)]
 
 
 IMPORTS = {
@@ -342,7 +421,7 @@ def generate_one(name, fn) -> str:
         lines.extend(fn())
         lines.append(f"Definition translated_{name} : bool := true.")
     except Exception as e:  # fail closed
-        reason = f"{type(e).__name__}: {e}".replace("*)", "* )")
+        reason = f"{type(e).__name__}: {e}".replace("*)", "* )").replace('"', "''")
         lines.append(f"(* TRANSLATOR FAILED for {name}: {reason} *)")
         lines.append(f"Definition translated_{name} : bool := translator_failed_for_{name}.")
     lines.append("")
@@ -350,6 +429,14 @@ def generate_one(name, fn) -> str:
 
 
 def main():
+    if sys.argv[1] == "--snapshot":
+        exp = expected_bodies() if os.path.exists(_EXPECTED_PATH) else {}
+        for key in sys.argv[2:]:
+            exp[key] = [current_body(key)]
+            print("snapshot", key)
+        with open(_EXPECTED_PATH, "w") as f:
+            _json.dump(exp, f, indent=1, sort_keys=True)
+        return
     outdir = sys.argv[1]
     os.makedirs(outdir, exist_ok=True)
     for name, fn in SECTIONS:
